@@ -9,10 +9,35 @@ second build does nothing" -- behaviour of make/ninja over histories.
 import ast
 
 from ..cfg import EXIT, build as build_cfg
+from ..facts import (Facts, components, direct, has, has_call, has_const,
+                     param_of)
 from ..index import AnalysisError, unparse, walk_no_nested
 from .. import query as Q
 from ..rules import graph as G
 from ..rules import owner
+
+
+def _facts(ctx):
+    f = getattr(ctx, '_facts', None)
+    if f is None:
+        f = ctx._facts = Facts(ctx.repo)
+    return f
+
+
+def _rule_roots(atoms, param='rule'):
+    """Attributes `a` such that an access path `<param>.a...` is among the
+    atoms."""
+    out = set()
+    for a in atoms:
+        if a.startswith(('const:', 'key:', 'alloc:')):
+            continue
+        cs = components(a)
+        if len(cs) >= 2 and cs[0] == param:
+            m = cs[1]
+            for ch in '([':
+                m = m.split(ch)[0]
+            out.add(m)
+    return out
 
 C = 'bfg9000.builtins.compile:'
 L = 'bfg9000.builtins.link:'
@@ -67,8 +92,10 @@ def handlers(ctx, reg):
              'edge: every Edge subclass that is instantiated anywhere has a '
              'registered handler in the make and in the ninja backend')
     repo = ctx.repo
+    F = _facts(ctx)
     concrete, abstract = G.edge_classes(repo)
-    ctx.require_min(R, len(concrete), 11, 'concrete edge classes')
+    ctx.ob(R, 'edge-classes|found', len(concrete) >= 8, None,
+           'only {} concrete edge classes found'.format(len(concrete)))
     ctx.stat('edge_classes_concrete', sorted(c.fq for c in concrete))
     ctx.stat('edge_classes_abstract', sorted(c.fq for c in abstract))
     for c in concrete:
@@ -82,28 +109,93 @@ def handlers(ctx, reg):
                    'new edge class {} is not in the checker\'s consumed-'
                    'attribute table; its dependencies are unchecked'.format(
                        c.name))
-    # dispatch is by exact type
-    run = repo.method('bfg9000.backends:BuildRuleHandler', 'run')
-    ok = any(unparse(n) == 'self.handlers[type(e)]'
-             for n in ast.walk(run.node))
+    run = F.fn('bfg9000.backends:BuildRuleHandler.run')
+    edges_p = Q.params(run.node)[1]
+    ok = False
+    for n in ast.walk(run.node):
+        if isinstance(n, ast.Subscript) and has(F.atoms(n.value, run),
+                                                'self.handlers'):
+            k = n.slice
+            if isinstance(k, ast.Call) and isinstance(
+                    k.func, ast.Name) and k.func.id == 'type' and \
+                    k.args and param_of(F.atoms(k.args[0], run), edges_p):
+                ok = True
     ctx.ob(R, 'BuildRuleHandler.run|exact-type-dispatch', ok, run.node,
-           'dispatch is no longer self.handlers[type(e)]')
-    loops = [n for n in walk_no_nested(run.node) if isinstance(n, ast.For)]
-    ok = len(loops) == 1 and unparse(loops[0].iter) == 'edges'
+           'dispatch is no longer self.handlers[type(e)] for each edge')
+    calls = [e for e in F.effects(run, lambda e: True, depth=0)
+             if has(e.heads(), 'self.handlers') or has(
+                 e.heads() | e.recv(), 'handlers')]
+    ok = bool(calls) and all(
+        param_of(e.arg(0), edges_p) and not has_call(e.arg(0), 'if') and
+        not e.control() - {'param:' + edges_p} for e in calls)
     ctx.ob(R, 'BuildRuleHandler.run|all-edges', ok, run.node,
-           'run() does not visit every edge')
-    # writers feed every edge to the handlers
+           'run() does not hand every edge to its handler')
     for b in ('make', 'ninja'):
-        w = repo.func(G.BACKEND_WRITERS[b] + ':write')
-        ok = any(unparse(c) == 'rule_handler.run(build_inputs.edges(), '
-                 'build_inputs, buildfile, env)' for c in Q.calls(w.node))
+        w = F.fn(G.BACKEND_WRITERS[b] + ':write')
+        runs = [e for e in F.effects(w, lambda e: e.name == 'run', depth=1)
+                if any(h.endswith('rule_handler.run') for h in e.heads())]
+        ok = bool(runs) and all(has(e.arg(0), 'build_inputs.edges()')
+                                for e in runs) and F.must(
+            w, lambda e: e.name == 'run' and any(
+                h.endswith('rule_handler.run') for h in e.heads()))
         ctx.ob(R, b + '.write|runs-handlers-on-all-edges', ok, w.node,
                'write() does not run the rule handlers over '
                'build_inputs.edges()')
-    bi = repo.method('bfg9000.build_inputs:BuildInputs', 'edges')
-    ok = unparse(Q.returns(bi.node)[0].value) == 'iter(self._edges)'
+    bi = F.fn('bfg9000.build_inputs:BuildInputs.edges')
+    r = F.returns(bi)
+    ok = has(r, 'self._edges') and not has_call(r, 'if') and not has_call(
+        r, 'filter')
     ctx.ob(R, 'BuildInputs.edges|all', ok, bi.node, 'edges() filters edges')
     return concrete
+
+
+def _emissions(F, h):
+    """Effects that register a rule/build statement for a handler (in the
+    handler or a private helper it calls): (effect, kind)."""
+    out = []
+    for e in F.effects(h, lambda e: e.name in (
+            'rule', 'multitarget_rule', 'build', 'command_build'), depth=1):
+        if e.fn is not h and not e.fn.node.name.startswith('_'):
+            continue
+        hd = e.heads()
+        if e.name == 'rule' and Q.kwarg(e.call, 'name') is None and (
+                Q.kwarg(e.call, 'target') is not None or e.call.args):
+            out.append((e, 'make-rule'))
+        elif e.name == 'multitarget_rule':
+            out.append((e, 'make-multi'))
+        elif e.name == 'build':
+            out.append((e, 'ninja-build'))
+        elif e.name == 'command_build':
+            out.append((e, 'ninja-command'))
+    return out
+
+
+def _terms(F, ex, fn, _d=0):
+    """Operands of a concatenation / elements contributed to a local list:
+    the pieces a dependency argument is assembled from."""
+    if ex is None:
+        return []
+    if isinstance(ex, ast.BinOp) and isinstance(ex.op, ast.Add):
+        return _terms(F, ex.left, fn, _d) + _terms(F, ex.right, fn, _d)
+    if isinstance(ex, ast.Name) and _d < 2:
+        ds = F.flow.defs(fn.node).get(ex.id)
+        if ds and ex.id not in Q.params(fn.node):
+            out = []
+            for kind, e2, idx in ds:
+                if kind in ('value', 'seq'):
+                    out += _terms(F, e2, fn, _d + 1)
+                else:
+                    out.append(e2)
+            return out
+    if isinstance(ex, (ast.List, ast.Tuple)) and ex.elts:
+        return list(ex.elts)
+    if isinstance(ex, ast.Call) and isinstance(ex.func, ast.Name) and \
+            ex.func.id in ('list', 'tuple', 'chain', 'listify') and ex.args:
+        out = []
+        for a in ex.args:
+            out += _terms(F, a, fn, _d)
+        return out
+    return [ex]
 
 
 def deps_cover(ctx, reg, concrete):
@@ -112,11 +204,13 @@ def deps_cover(ctx, reg, concrete):
     ctx.rule(R, 'every handler passes every consumed-node attribute of its '
              'edge classes (sources, objects, libs, pch, headers, package '
              'deps, extra_deps, ...) to the dependency arguments of the '
-             'rule/build statement it emits; order-only arguments hold only '
-             'the output directories')
+             'rule/build statement it emits (value flow, through locals '
+             'and private helpers); order-only arguments hold only the '
+             'output directories')
     ctx.rule(R2, 'the target/output argument of every handler derives from '
              'the whole of rule.output')
     repo = ctx.repo
+    F = _facts(ctx)
     result = {}
     for b in ('make', 'ninja'):
         by_handler = {}
@@ -127,48 +221,84 @@ def deps_cover(ctx, reg, concrete):
             for cfq in classes:
                 for a, why in REQUIRED.get(cfq, {}).items():
                     required[a] = why
-            ro = G.Roots(h.node)
-            ems = [(c, k) for c, k in G.emission_calls(h.node)
-                   if k in G.DEP_ARGS]
+            pname = Q.params(h.node)[0]
+            ems = _emissions(F, h)
             Q.require(ems, '{}: no rule/build emission found'.format(hfq))
-            best = set()
-            best_clean = set()
-            out_roots = set()
-            oo_roots = set()
-            for c, k in ems:
+            best, out_roots, oo_roots = set(), set(), set()
+            out_atoms = set()
+            for e, k in ems:
                 (oname, opos), deps, oos = G.DEP_ARGS[k]
                 got = set()
-                got_clean = set()
                 for nm, pos in deps:
-                    got |= ro.of(G.call_arg(c, nm, pos))
-                    got_clean |= ro.clean(G.call_arg(c, nm, pos))
+                    got |= _rule_roots(e.arg(pos, kw=nm), pname)
                 if len(got) >= len(best):
                     best = got
-                    best_clean = got_clean
-                out_roots |= ro.of(G.call_arg(c, oname, opos))
+                oa = e.arg(opos, kw=oname)
+                out_atoms |= oa
+                out_roots |= _rule_roots(oa, pname)
                 for nm, pos in oos:
-                    oo_roots |= ro.of(G.call_arg(c, nm, pos))
+                    oo_roots |= _rule_roots(e.arg(pos, kw=nm), pname)
             result[(b, hfq)] = best
+            # old-style def-use inside the handler body, for the
+            # "unconditional" clause only
+            ro = G.Roots(h.node, pname)
+            old_all, old_clean = set(), set()
+            for c, k in G.emission_calls(h.node):
+                if k not in G.DEP_ARGS:
+                    continue
+                (on_, op_), deps, oos = G.DEP_ARGS[k]
+                for nm, pos in deps:
+                    old_all |= ro.of(G.call_arg(c, nm, pos))
+                    old_clean |= ro.clean(G.call_arg(c, nm, pos))
+            # terms of the dependency arguments (operands of +, elements
+            # appended to a local list ...): an attribute must arrive
+            # through at least one term that does not filter it
+            unfiltered = set()
+            for e, k in ems:
+                (on_, op_), deps, oos = G.DEP_ARGS[k]
+                for nm, pos in deps:
+                    ex = None
+                    if pos is not None and pos < len(e.call.args):
+                        ex = e.call.args[pos]
+                    ex = Q.kwarg(e.call, nm) or ex
+                    for t in _terms(F, ex, e.fn):
+                        ta = F.atoms(t, e.fn, e.bind)
+                        if not (has_call(ta, 'if') or has_call(ta,
+                                                               'filter')):
+                            unfiltered |= _rule_roots(ta, pname)
             for a, why in sorted(required.items()):
+                if a in best:
+                    ctx.ob(R, '{}|{}|rule.{}|unfiltered'.format(b, hfq, a),
+                           a in unfiltered, h.node,
+                           '{} handler {} passes only a filtered subset of '
+                           'rule.{} to the dependencies ({})'.format(
+                               b, h.qualname, a, why))
                 ctx.ob(R, '{}|{}|rule.{}'.format(b, hfq, a), a in best,
                        h.node, '{} handler {} does not make the step depend '
                        'on rule.{} ({})'.format(b, h.qualname, a, why))
-                if a in best:
+                if a in best and a in old_all:
                     ctx.ob(R, '{}|{}|rule.{}|unconditional'.format(
-                        b, hfq, a), a in best_clean, h.node,
+                        b, hfq, a), a in old_clean, h.node,
                         '{} handler {} adds rule.{} to the dependencies '
                         'only under a condition that is not a presence test '
                         'of rule.{} itself ({})'.format(
                             b, h.qualname, a, a, why))
-            ctx.ob(R2, '{}|{}'.format(b, hfq), 'output' in out_roots, h.node,
-                   'the emitted target/output does not derive from '
-                   'rule.output')
-            # order-only
+            ok = 'output' in out_roots and not any(
+                a.startswith(pname + '.output[') for a in out_atoms
+                if not any(x == pname + '.output' or x.startswith(
+                    pname + '.output.') for x in out_atoms))
+            ctx.ob(R2, '{}|{}'.format(b, hfq), ok, h.node,
+                   'the emitted target/output does not derive from the '
+                   'whole of rule.output')
             if b == 'make' and any(c in FILE_PRODUCERS for c in classes):
-                has_dd = any(
-                    isinstance(n, ast.Call) and unparse(n) ==
-                    'make.directory_deps(rule.output)'
-                    for c, k in ems for n in ast.walk(c))
+                has_dd = False
+                for e, k in ems:
+                    (on_, op_), deps, oos = G.DEP_ARGS[k]
+                    for nm, pos in oos:
+                        a = e.arg(pos, kw=nm)
+                        if has_call(a, 'directory_deps') and \
+                                'output' in _rule_roots(a, pname):
+                            has_dd = True
                 ctx.ob(R, 'make|{}|order-only=directory_deps(output)'.format(
                     hfq), has_dd, h.node,
                     'output directories are not created before the step '
@@ -178,24 +308,18 @@ def deps_cover(ctx, reg, concrete):
                 b, hfq), not (bad & set(required)), h.node,
                 'consumed nodes {} are only order-only dependencies'.format(
                     sorted(bad & set(required))))
-    # the attributes in the table exist on the classes (anchors)
     for cfq, attrs in REQUIRED.items():
         ci = repo.cls(cfq)
         for a in attrs:
             found = False
-            for c2 in ci.mro():
-                for meth in c2.methods.values():
-                    for n in ast.walk(meth):
-                        if isinstance(n, ast.Attribute) and n.attr == a and \
-                                isinstance(n.ctx, ast.Store):
-                            found = True
-            if not found and a in ('manifest', 'pch_source'):
-                # assigned by a tool hook: step.manifest / step.pch_source
-                for m in repo.modules.values():
-                    for n in ast.walk(m.tree):
-                        if isinstance(n, ast.Attribute) and n.attr == a and \
-                                isinstance(n.ctx, ast.Store):
-                            found = True
+            for m in repo.modules.values():
+                if found:
+                    break
+                for n in ast.walk(m.tree):
+                    if isinstance(n, ast.Attribute) and n.attr == a and \
+                            isinstance(n.ctx, ast.Store):
+                        found = True
+                        break
             if not found:
                 raise AnalysisError('consumed attribute {}.{} is never '
                                     'assigned'.format(cfq, a))
@@ -208,57 +332,53 @@ def pass_through(ctx):
              'arguments they receive to the statement they register; with '
              'several targets the stamp file carries the dependencies and '
              'every target depends on the stamp')
-    repo = ctx.repo
-    f = repo.func('bfg9000.backends.make.writer:multitarget_rule')
-    rules = [c for c in Q.calls(f.node) if unparse(c.func) ==
-             'buildfile.rule']
-    Q.require(len(rules) == 2, 'multitarget_rule: expected two '
-              'buildfile.rule calls')
-    main = [c for c in rules if c.args and unparse(c.args[0]) == 'primary']
-    ok = len(main) == 1 and [unparse(a) for a in main[0].args] == [
-        'primary', 'deps', 'order_only', 'recipe', 'variables', 'phony']
+    F = _facts(ctx)
+    f = F.fn('bfg9000.backends.make.writer:multitarget_rule')
+    rules = F.effects(f, lambda e: e.name == 'rule', depth=1)
+
+    def a_(e, pos, kw):
+        return e.arg(pos, kw=kw)
+    main = [e for e in rules if param_of(a_(e, 1, 'deps'), 'deps')]
+    ok = bool(main) and all(
+        {x for x in direct(a_(e, 1, 'deps')) if not x.startswith(
+            ('const:', 'alloc:'))} == {'param:deps'} and
+        param_of(a_(e, 2, 'order_only'), 'order_only') and
+        param_of(a_(e, 3, 'recipe'), 'recipe') and
+        param_of(a_(e, 4, 'variables'), 'variables') and
+        param_of(a_(e, 5, 'phony'), 'phony') for e in main) and any(
+        any('addext(' in x for x in a_(e, 0, 'target')) and
+        param_of(a_(e, 0, 'target'), 'targets') for e in main)
     ctx.ob(R, 'multitarget_rule|primary-rule-gets-all-args', ok, f.node,
-           'the primary rule does not receive deps/order_only/recipe/'
-           'variables/phony unchanged')
-    multi = [c for c in rules if c not in main]
-    ok = len(multi) == 1 and unparse(Q.kwarg(multi[0], 'target')
-                                     or ast.Constant(None)) == 'targets' \
-        and unparse(Q.kwarg(multi[0], 'deps') or ast.Constant(None)) == \
-        '[primary]'
+           'the primary (stamp or only) rule does not receive deps/'
+           'order_only/recipe/variables/phony unchanged')
+    multi = [e for e in rules if e not in main]
+    ok = bool(multi) and all(
+        param_of(a_(e, 0, 'target'), 'targets') and any(
+            'addext(' in x for x in a_(e, 1, 'deps')) for e in multi)
     ctx.ob(R, 'multitarget_rule|targets-depend-on-stamp', ok, f.node,
            'with several targets, the targets do not all depend on the '
            'stamp file')
-    # deps must not be reassigned
-    for nm in ('deps', 'order_only'):
-        ctx.ob(R, 'multitarget_rule|{}-not-reassigned'.format(nm),
-               not Q.local_assignments(f.node, nm), f.node,
-               '{} is modified before being forwarded'.format(nm))
-    f = repo.func('bfg9000.backends.ninja.writer:command_build')
-    builds = [c for c in Q.calls(f.node) if unparse(c.func) ==
-              'buildfile.build' and Q.kwarg(c, 'variables') is not None]
-    Q.require(len(builds) == 1, 'command_build: main build call not found')
-    b = builds[0]
-    ok = unparse(Q.kwarg(b, 'inputs')) == 'inputs' and \
-        unparse(Q.kwarg(b, 'order_only')) == 'order_only' and \
-        unparse(Q.kwarg(b, 'output')) == 'output' and \
-        'implicit' in unparse(Q.kwarg(b, 'implicit'))
+    f = F.fn('bfg9000.backends.ninja.writer:command_build')
+    builds = [e for e in F.effects(f, lambda e: e.name == 'build', depth=1)
+              if param_of(e.arg(kw='output'), 'output')]
+    ok = bool(builds) and all(
+        param_of(e.arg(kw='inputs'), 'inputs') and
+        param_of(e.arg(kw='order_only'), 'order_only') and
+        param_of(e.arg(kw='implicit'), 'implicit') for e in builds)
     ctx.ob(R, 'command_build|forwards-inputs-implicit-order_only', ok,
            f.node, 'command_build does not forward output/inputs/implicit/'
            'order_only')
-    # Edge keeps extra_deps complete; BaseCommand adds nodes named in cmds
-    f = repo.method(K + 'BaseCommand', '__init__')
-    sup = [c for c in Q.calls(f.node) if unparse(c.func) ==
-           'super().__init__']
-    ok = len(sup) == 1 and unparse(Q.kwarg(sup[0], 'extra_deps')
-                                   or ast.Constant(None)) == 'implicit'
-    vals = [unparse(v) for v in Q.local_assignments(f.node, 'implicit')
-            if v is not None]
-    ok = ok and any('isinstance(i, Node)' in v and 'cmds' in v for v in vals)
-    ext = any(unparse(c) == 'implicit.extend(iterate(extra_deps))'
-              for c in Q.calls(f.node))
-    ctx.ob(R, 'BaseCommand.__init__|cmd-nodes-become-extra_deps',
-           ok and ext, f.node, 'files named in custom commands / extra_deps '
-           'are not registered as dependencies of the step')
+    f = F.fn(K + 'BaseCommand.__init__')
+    sup = [e for e in F.effects(f, lambda e: e.name == '__init__', depth=0)
+           if any('super()' in h for h in e.heads())]
+    ok = bool(sup) and all(
+        param_of(e.arg(kw='extra_deps'), 'extra_deps') and
+        has(e.arg(kw='extra_deps'), 'cmds') and
+        not has_call({a for a in direct(e.arg(kw='extra_deps'))
+                      if 'extra_deps' in a}, 'if') for e in sup)
+    ctx.ob(R, 'BaseCommand.__init__|cmd-nodes-become-extra_deps', ok, f.node,
+           'files named in custom commands / extra_deps are not registered '
+           'as dependencies of the step')
 
 
 def edge_init(ctx, concrete):
@@ -268,49 +388,50 @@ def edge_init(ctx, concrete):
              'output, converts extra_deps into nodes and calls '
              'build.add_edge(self)')
     repo = ctx.repo
+    F = _facts(ctx)
     base = repo.cls(G.EDGE)
     for ci in sorted(base.subclasses(), key=lambda c: c.fq):
         if '__init__' not in ci.methods:
             continue
         fn = ci.methods['__init__']
-        g = build_cfg(fn)
-        sups = [g.stmt_of(c) for c in Q.calls(fn, nested=False)
-                if unparse(c.func) == 'super().__init__']
-        ok = bool(sups) and g.must_pass(sups, EXIT)
+        ok = F.must(fn._func, lambda e: e.name == '__init__' and any(
+            'super()' in h for h in e.heads()), depth=1)
         ctx.ob(R, ci.fq + '.__init__|reaches-super', ok, fn,
                'a non-raising path through {}.__init__ skips '
                'super().__init__: the edge is never registered'.format(
                    ci.name))
-    f = repo.method(G.EDGE, '__init__')
-    g = build_cfg(f.node)
-    add = [g.stmt_of(c) for c in Q.calls(f.node, nested=False)
-           if unparse(c) == 'build.add_edge(self)']
-    ctx.ob(R, 'Edge.__init__|add_edge', bool(add) and g.must_pass(add, EXIT),
-           f.node, 'Edge.__init__ does not always register the edge')
-    loops = [n for n in walk_no_nested(f.node) if isinstance(n, ast.For) and
-             unparse(n.iter) == 'self.output']
-    ok = len(loops) == 1 and any(unparse(s) == 'i.creator = self'
-                                 for s in loops[0].body)
+    f = F.fn(G.EDGE + '.__init__')
+    ok = F.must(f, lambda e: e.name == 'add_edge' and param_of(
+        e.all_args(), 'self') and param_of(e.recv(), 'build'))
+    ctx.ob(R, 'Edge.__init__|add_edge', ok, f.node,
+           'Edge.__init__ does not always register the edge')
+    ok = any(has(t, 'self.output', 'creator') and param_of(v, 'self') and
+             not F.guards(n, f) for t, v, n in F.stores(f))
     ctx.ob(R, 'Edge.__init__|creator-on-every-output', ok, f.node,
            'creator is not set on every output')
-    vals = [unparse(n.value) for n in ast.walk(f.node)
-            if isinstance(n, ast.Assign) and unparse(n.targets[0]) ==
-            'self.output']
-    ctx.ob(R, 'Edge.__init__|output=listify(output)',
-           vals == ['listify(output)'], f.node, 'self.output is not the '
-           'full list of outputs')
-    ed = [n for n in ast.walk(f.node) if isinstance(n, ast.Assign) and
-          unparse(n.targets[0]) == 'self.extra_deps']
-    ok = len(ed) == 1 and 'iterate(extra_deps)' in unparse(ed[0].value) and \
-        isinstance(ed[0].value, ast.ListComp) and not ed[0].value.generators[
-            0].ifs
+    v = F.stored(f, 'output') or set()
+    ok = param_of(v, 'output') and not has_call(v, 'if') and not any(
+        a.startswith('output[') for a in v)
+    ctx.ob(R, 'Edge.__init__|output=listify(output)', ok, f.node,
+           'self.output is not the full list of outputs')
+    v = F.stored(f, 'extra_deps') or set()
+    ok = param_of(v, 'extra_deps') and has_call(v, 'objectify') and \
+        not has_call(v, 'if') and not has_call(v, 'filter')
     ctx.ob(R, 'Edge.__init__|extra_deps-all-kept', ok, f.node,
            'extra_deps are filtered or dropped')
-    ae = repo.method('bfg9000.build_inputs:BuildInputs', 'add_edge')
-    ok = any(unparse(c) == 'self._edges.append(edge)' for c in
-             Q.calls(ae.node))
+    ae = F.fn('bfg9000.build_inputs:BuildInputs.add_edge')
+    ok = any(has(e.recv(), 'self._edges') and param_of(
+        e.all_args(), Q.params(ae.node)[1]) and not e.control()
+        for e in F.effects(ae, lambda e: e.name in ('append', 'add'),
+                           depth=0))
     ctx.ob(R, 'BuildInputs.add_edge|appends', ok, ae.node,
            'add_edge does not record the edge')
+
+
+def _attr_nodes(fn, attr, base='self'):
+    return [n for n in ast.walk(fn.node) if isinstance(n, ast.Attribute) and
+            n.attr == attr and isinstance(n.value, ast.Name) and
+            n.value.id == base and isinstance(n.ctx, ast.Load)]
 
 
 def defaults(ctx):
@@ -319,121 +440,121 @@ def defaults(ctx):
              'build_inputs[defaults].outputs (explicit else fallback); '
              'Link adds to the fallback set, test() removes its primary, '
              'install() calls default(); test/tests/install targets of make '
-             'and ninja use the same member expressions')
+             'and ninja use the same members')
     repo = ctx.repo
+    F = _facts(ctx)
     D = 'bfg9000.builtins.default:'
-    for fq, kw in ((D + 'make_all_rule', 'deps'),
-                   (D + 'ninja_all_rule', 'inputs')):
-        f = repo.func(fq)
-        ems = [c for c in Q.calls(f.node) if unparse(c.func) in (
-            'buildfile.rule', 'buildfile.build')]
-        ok = len(ems) == 1 and unparse(Q.kwarg(ems[0], kw) or ast.Constant(
-            None)) == "build_inputs['defaults'].outputs"
-        tgt = Q.kwarg(ems[0], 'target') or Q.kwarg(ems[0], 'output') \
-            if ems else None
-        ok = ok and tgt is not None and unparse(tgt) == "'all'"
+
+    def named(fn, name, depth=1):
+        out = []
+        for e in F.effects(fn, lambda e: e.name in (
+                'rule', 'build', 'command_build'), depth=depth):
+            t = e.arg(kw='target') | e.arg(kw='output')
+            if has_const(direct(t), name) and Q.kwarg(e.call, 'name') is \
+                    None:
+                out.append(e)
+        return out
+
+    def deps_of(e):
+        return e.arg(kw='deps') | e.arg(kw='inputs')
+    for fq in (D + 'make_all_rule', D + 'ninja_all_rule'):
+        f = F.fn(fq)
+        ems = named(f, 'all', depth=0)
+        ok = bool(ems) and all(
+            has(deps_of(e), "['defaults']", 'outputs') and not has_call(
+                deps_of(e), 'if') for e in ems)
         ctx.ob(R, fq + '|all<-defaults.outputs', ok, f.node,
                '`all` does not depend on exactly the default outputs')
-    f = repo.func(D + 'ninja_all_rule')
-    ok = any(unparse(c) == "buildfile.default(['all'])"
-             for c in Q.calls(f.node))
+    f = F.fn(D + 'ninja_all_rule')
+    ok = any(has_const(e.all_args(), 'all')
+             for e in F.calls_to(f, 'default', depth=0))
     ctx.ob(R, D + 'ninja_all_rule|default all', ok, f.node,
            'ninja default target is not `all`')
-    # make: `all` must be the first rule => registered in a pre_rules_hook
     ok = any(unparse(d) == 'make.pre_rules_hook'
              for d in repo.func(D + 'make_all_rule').node.decorator_list)
     ctx.ob(R, D + 'make_all_rule|first-rule', ok, None,
            'make `all` rule is not registered before the edge rules (the '
            'first rule of a Makefile is its default goal)')
-    p = repo.method(D + 'DefaultOutputs', 'outputs')
-    ok = unparse(Q.returns(p.node)[0].value) == \
-        'self.default_outputs or self.fallback_defaults'
+    p = F.fn(D + 'DefaultOutputs.outputs')
+    r = F.returns(p)
+    fb = _attr_nodes(p, 'fallback_defaults')
+    ok = has(r, 'self.default_outputs') and has(
+        r, 'self.fallback_defaults') and not has_call(
+        r, 'if') and bool(fb) and all(
+        any(not pos and has(F.atoms(t, f_, b_), 'self.default_outputs')
+            for t, pos, f_, b_ in F.guard_leaves(n, p)) for n in fb)
     ctx.ob(R, 'DefaultOutputs.outputs|explicit-else-fallback', ok, p.node,
            'default set is not "explicit outputs, else fallback outputs"')
-    a = repo.method(D + 'DefaultOutputs', 'add')
-    ok = any(unparse(n) == 'self.default_outputs if explicit else '
-             'self.fallback_defaults' for n in ast.walk(a.node))
-    ctx.ob(R, 'DefaultOutputs.add|explicit-flag', ok, a.node,
-           'add() does not separate explicit from fallback defaults')
-    r = repo.method(D + 'DefaultOutputs', 'remove')
-    ok = any(unparse(n) == 'self.default_outputs if explicit else '
-             'self.fallback_defaults' for n in ast.walk(r.node))
-    ctx.ob(R, 'DefaultOutputs.remove|explicit-flag', ok, r.node,
-           'remove() does not separate explicit from fallback defaults')
-    d = repo.func(D + 'default')
-    ok = any(unparse(c) == "context.build['defaults'].add(i, explicit=True)"
-             for c in Q.calls(d.node))
+    for mname in ('add', 'remove'):
+        a = F.fn(D + 'DefaultOutputs.' + mname)
+        ex = _attr_nodes(a, 'default_outputs')
+        fb = _attr_nodes(a, 'fallback_defaults')
+
+        def guarded(n, want):
+            return any(pos == want and param_of(F.atoms(t, f_, b_),
+                                                'explicit')
+                       for t, pos, f_, b_ in F.guard_leaves(n, a))
+        ok = bool(ex) and bool(fb) and all(guarded(n, True) for n in ex) \
+            and all(guarded(n, False) for n in fb)
+        ctx.ob(R, 'DefaultOutputs.{}|explicit-flag'.format(mname), ok,
+               a.node, '{}() does not separate explicit from fallback '
+               'defaults'.format(mname))
+    d = F.fn(D + 'default')
+    ok = any(has(e.recv(), "['defaults']") and e.kw_const('explicit') is True
+             for e in F.calls_to(d, 'add', depth=1))
     ctx.ob(R, 'default()|explicit-add', ok, d.node,
            'default() does not add explicit defaults')
-    li = repo.method(L + 'Link', '__init__')
-    ok = any(unparse(c) == "build['defaults'].add(self.public_output)"
-             for c in Q.calls(li.node))
+    li = F.fn(L + 'Link.__init__')
+    ok = any(has(e.recv(), "['defaults']") and has(
+        e.arg(0), 'self.public_output') and e.kw_const('explicit') is not
+        True for e in F.calls_to(li, 'add', depth=0))
     ctx.ob(R, 'Link.__init__|fallback-add', ok, li.node,
            'linked binaries are not added to the fallback default set')
-    t = repo.method('bfg9000.builtins.tests:Test', '__init__')
-    ok = any(unparse(c) == "context.build['defaults'].remove(primary)"
-             for c in Q.calls(t.node))
+    t = F.fn('bfg9000.builtins.tests:Test.__init__')
+    rm = [e for e in F.calls_to(t, 'remove', depth=1)
+          if has(e.recv(), "['defaults']")]
+    ok = bool(rm) and not any(has_const(e.arg(1, kw='explicit'), True)
+                              for e in rm)
     ctx.ob(R, 'Test.__init__|removes-primary', ok, t.node,
-           'test() does not remove its program from the fallback defaults')
-    ins = repo.func('bfg9000.builtins.install:install')
-    ok = any(unparse(c) == "context['default'](*args)"
-             for c in Q.calls(ins.node))
+           'test() does not remove its program from the fallback defaults '
+           '(only)')
+    ins = F.fn('bfg9000.builtins.install:install')
+    ok = any(has(e.heads(), "['default']") and param_of(e.all_args(), 'args')
+             for e in F.effects(ins, lambda e: True, depth=0))
     ctx.ob(R, 'install()|calls-default', ok, ins.node,
            'install() does not make its arguments default targets')
-    # tests: tests target depends on inputs of all tests + extra deps
     T = 'bfg9000.builtins.tests:'
-    for fq, call, kw in ((T + 'make_test_rule', 'buildfile.rule', 'deps'),
-                         (T + 'ninja_test_rule', 'buildfile.build',
-                          'inputs')):
-        f = repo.func(fq)
-        hit = [c for c in Q.calls(f.node) if unparse(c.func) == call and
-               unparse(Q.kwarg(c, 'target') or Q.kwarg(c, 'output') or
-                       ast.Constant(None)) == "'tests'"]
-        ok = len(hit) == 1 and unparse(Q.kwarg(hit[0], kw)) == \
-            'deps + tests.extra_deps'
+    for fq in (T + 'make_test_rule', T + 'ninja_test_rule'):
+        f = F.fn(fq)
+        hit = named(f, 'tests', depth=0)
+        ok = bool(hit) and all(
+            has_call(deps_of(e), '_build_commands') and has(
+                deps_of(e), 'extra_deps') for e in hit)
         ctx.ob(R, fq + '|tests<-deps+extra_deps', ok, f.node,
-               '`tests` does not depend on deps + tests.extra_deps')
-    f = repo.func(T + 'make_test_rule')
-    hit = [c for c in Q.calls(f.node) if unparse(c.func) == 'buildfile.rule'
-           and unparse(Q.kwarg(c, 'target')) == "'test'"]
-    ok = len(hit) == 1 and unparse(Q.kwarg(hit[0], 'deps')) == "'tests'"
-    ctx.ob(R, T + 'make_test_rule|test<-tests', ok, f.node,
-           '`test` does not depend on `tests`')
-    f = repo.func(T + 'ninja_test_rule')
-    hit = [c for c in Q.calls(f.node) if unparse(c.func) ==
-           'ninja.command_build' and unparse(Q.kwarg(c, 'output')) ==
-           "'test'"]
-    ok = len(hit) == 1 and unparse(Q.kwarg(hit[0], 'inputs')) == "'tests'"
-    ctx.ob(R, T + 'ninja_test_rule|test<-tests', ok, f.node,
-           '`test` does not depend on `tests`')
-    bc = repo.func(T + '_build_commands')
-    ok = any(unparse(c) == 'deps.extend(i.inputs)' for c in Q.calls(bc.node))\
-        and any(unparse(c) == 'deps.extend(more_deps)'
-                for c in Q.calls(bc.node))
+               '`tests` does not depend on the test inputs + '
+               'tests.extra_deps')
+        hit = named(f, 'test', depth=0)
+        ok = bool(hit) and all(has_const(deps_of(e), 'tests') for e in hit)
+        ctx.ob(R, fq + '|test<-tests', ok, f.node,
+               '`test` does not depend on `tests`')
+    bc = F.fn(T + '_build_commands')
+    r = F.returns(bc)
+    ok = has(r, 'inputs') and has_call(r, '_build_commands')
     ctx.ob(R, '_build_commands|collects-inputs-recursively', ok, bc.node,
            'test inputs (incl. those of driver children) are not collected')
-    # install: depends on all
     I = 'bfg9000.builtins.install:'
-    f = repo.func(I + 'make_install_rule')
-    hit = [c for c in Q.calls(f.node) if unparse(c.func) == 'buildfile.rule'
-           and unparse(Q.kwarg(c, 'target')) == "'install'"]
-    ok = len(hit) == 1 and unparse(Q.kwarg(hit[0], 'deps')) == "'all'"
-    ctx.ob(R, I + 'make_install_rule|install<-all', ok, f.node,
-           '`install` does not depend on `all`')
-    f = repo.func(I + 'ninja_install_rule')
-    hit = [c for c in Q.calls(f.node) if unparse(c.func) ==
-           'ninja.command_build' and unparse(Q.kwarg(c, 'output')) ==
-           "'install'"]
-    ok = len(hit) == 1 and unparse(Q.kwarg(hit[0], 'inputs')) == "['all']"
-    ctx.ob(R, I + 'ninja_install_rule|install<-all', ok, f.node,
-           '`install` does not depend on `all`')
-    # alias: members
-    for fq, kw in ((A + 'make_alias', 'deps'), (A + 'ninja_alias', 'inputs')):
-        f = repo.func(fq)
-        ems = [c for c in Q.calls(f.node) if unparse(c.func) in (
-            'buildfile.rule', 'buildfile.build')]
-        ok = len(ems) == 1 and unparse(Q.kwarg(ems[0], kw)) == \
-            'rule.extra_deps'
+    for fq in (I + 'make_install_rule', I + 'ninja_install_rule'):
+        f = F.fn(fq)
+        hit = named(f, 'install', depth=0)
+        ok = bool(hit) and all(has_const(deps_of(e), 'all') for e in hit)
+        ctx.ob(R, fq + '|install<-all', ok, f.node,
+               '`install` does not depend on `all`')
+    for fq in (A + 'make_alias', A + 'ninja_alias'):
+        f = F.fn(fq)
+        ems = F.effects(f, lambda e: e.name in ('rule', 'build'), depth=0)
+        ok = bool(ems) and all(
+            'extra_deps' in _rule_roots(deps_of(e), Q.params(f.node)[0])
+            and not has_call(deps_of(e), 'if') for e in ems)
         ctx.ob(R, fq + '|alias<-members', ok, f.node,
                'alias does not depend on exactly its members')
 
